@@ -596,7 +596,9 @@ def main(tier):
     inlined = set()
     for r in RPCS:
         chk.function(S.SVC, 'VizierServicer.' + r.rpc)
+        from contracts import c01_replay
         fr = verify.verify_function(chk, 'VizierServicer.' + r.rpc, r.entry, r.post, witness_terms=witness_terms, known=known,
+                                    on_violation=c01_replay.on_violation(r.rpc),
                                     timeout_ms=20000 if tier == 'quick' else 60000, expect_paths=2)
         inlined |= fr.inlined
     # SuggestTrials (shared contract, contracts/suggest.py): the C01 clauses and the loop/lemma obligations they rest on
